@@ -4,7 +4,7 @@ import RedisVerif.Model.Stream
 /-
   C12 / C13 sub-driver (stateful): one process (`StreamingPersistence` + `Compactor`) on an
   object store with a fault oracle.
-    NEW <rid> <nf> (<call-index> <fail|partial>)*      → ok
+    NEW <rid> <nf> (<call-index> <fail|partial|corrupt>)*      → ok
     PUSH <key> <rv>                                     → ok pending=<n>
     FLUSH <sz>                                          → ok empty calls=<c> | ok seg=<id> n=<k> pending=<n> calls=<c>
                                                           | err pending=<n> calls=<c>
@@ -75,6 +75,7 @@ def showCompact : CompactOut → String
 def parseFault : String → Option Fault
   | "fail" => some .fail
   | "partial" => some .failPartial
+  | "corrupt" => some .readCorrupt
   | _ => none
 
 def parseFaults : List String → Option (List (Nat × Fault))
